@@ -495,6 +495,12 @@ def grid2geo(zone, east, north, hemisphere='south', ellipsoid=grs80, prj=utm):
         cm = float((zone * prj.zonewidth) + prj.initialcm - prj.zonewidth)
     long_diff = degrees(atan(sinh(eta1) / cos(xi1)))
     long = cm + long_diff
+    # zones 1 and 60 reach across the +/-180 meridian: keep the longitude in
+    # the range geo2grid accepts
+    if long > 180:
+        long -= 360
+    elif long < -180:
+        long += 360
 
     # Point Scale Factor and Grid Convergence
     psf, grid_conv = psfandgridconv(xi1, eta1, lat, long, cm, conf_lat,
